@@ -155,6 +155,16 @@ def m_into_same(ctx):
     m = re.match(r'^<(.*) as Into<(.*)>>::into$', ctx.callee, re.S) or re.match(r'^<(.*) as From<(.*)>>::from$', ctx.callee, re.S)
     a, b = m.group(1).strip(), m.group(2).strip()
     if a == b: return ctx.ret(ctx.args[0])
+    if '::into' in ctx.callee:
+        # blanket `impl Into<B> for A where B: From<A>`: run the crate's own From impl when the dump has one
+        try: name = ctx.eng.resolve(f'<{b} as From<{a}>>::from')
+        except EngineError: name = None
+        if name is None:
+            # the impl may be written for a type alias of B: find the unique `impl From<A> for _` in the dump
+            want = (ctx.eng._tyseg(a),)
+            c = [n for key, ns in ctx.eng.index.items() if key[1] == 'From' and key[2] == 'from' for n in ns if ctx.eng._targs(ctx.eng.trait_of.get(n, '')) == want]
+            if len(c) == 1: name = c[0]
+        if name is not None: return ctx.call_fn(name, ctx.args)
     return NotImplemented
 @model(r'^core::str::<impl str>::as_bytes$|^core::str::<impl str>::as_ptr$|^String::into_bytes$|^String::as_bytes$')
 def m_as_bytes(ctx): return ctx.ret(ctx.args[0])
